@@ -442,6 +442,12 @@ func normalizeDomainpart(domainpart string) (string, error) {
 		return domainpart, err
 	}
 
+	// The mapping step also turns the other label separators known to IDNA
+	// (U+3002, U+FF0E, U+FF61) into dots, and stripping a single dot above may
+	// have left another one behind ("example.net.."). The canonical form must
+	// not end in a label separator or it would change when it is parsed again.
+	domainpart = strings.TrimRight(domainpart, ".")
+
 	if l := len(domainpart); l < 1 || l > 1023 {
 		return domainpart, errInvalidDomainLen
 	}
